@@ -10,7 +10,10 @@ import (
 	"fmt"
 	"hash/crc32"
 	"math/rand"
+	"os"
+	"path/filepath"
 	"strings"
+	"sync"
 	"time"
 
 	"verif/internal/drive"
@@ -18,6 +21,8 @@ import (
 	"verif/internal/fullsync"
 	"verif/internal/harness"
 	"verif/internal/rdbx"
+
+	"github.com/mgtv-tech/redis-GunYu/config"
 )
 
 func preObj(r *rand.Rand, same rdbx.Kind) *fakeredis.Obj {
@@ -60,6 +65,7 @@ func preObj(r *rand.Rand, same rdbx.Kind) *fakeredis.Obj {
 
 func main() {
 	drive.Quiet()
+	loadPolicies()
 	run := harness.New("C20", "exploration",
 		"case = PRNG(seed,i) → (dataset/encoding/replay configuration as in C03, key-exists policy, prior target contents: a PRNG subset of the snapshot's keys "+
 			"pre-exists with the same or another type, with or without expiry); distinct = (policy, replay path taken for the pre-existing key: restore / expand / "+
@@ -78,6 +84,27 @@ func main() {
 		r := run.Rand(key)
 		sc := &fullsync.Scenario{Key: key, TargetDb: -1}
 		sc.KeyExists = []string{"replace", "ignore", "error"}[r.Intn(3)]
+		// the policy the replay is given is what the tool's own configuration loader makes of the
+		// YAML an operator writes: the key left out (every third replace case; "default replace"),
+		// the documented spelling, or the same word in another letter case (the loader lower-cases)
+		spelling := sc.KeyExists
+		switch r.Intn(6) {
+		case 0, 1:
+			if sc.KeyExists == "replace" {
+				spelling = ""
+			}
+		case 2:
+			spelling = strings.ToUpper(sc.KeyExists)
+		}
+		intended := sc.KeyExists
+		loaded, lerr := policyThroughConfig(spelling)
+		if lerr != nil {
+			res.Evals = 1
+			res.Violation(intended+"|configuration-rejected|yaml="+yamlClass(spelling), "the configuration loader refuses a valid keyExists setting: "+trunc(lerr.Error(), 200),
+				map[string]any{"yaml_keyExists": spelling})
+			return
+		}
+		sc.PolicyGiven = &loaded
 		ver := 6 + r.Intn(7)
 		sc.TargetVersion = []string{"7.2.4", "7.2.4", "6.2.14", "4.0.14", "7.0.15"}[r.Intn(5)]
 		sc.Restore = r.Intn(3) != 0
@@ -144,7 +171,8 @@ func main() {
 		}
 		res.Evals = 1
 		witness := func() map[string]any {
-			w := map[string]any{"scenario": sc.String(), "send_error": fmt.Sprint(out.Err), "rdb_hex": hexLimit(sc.File, 4000)}
+			w := map[string]any{"scenario": sc.String(), "send_error": fmt.Sprint(out.Err), "rdb_hex": hexLimit(sc.File, 4000),
+				"yaml_keyExists": spelling, "policy_after_config_loader": loaded}
 			var ks []string
 			for _, k := range sc.DS {
 				p := ""
@@ -243,7 +271,8 @@ func main() {
 			return true, ""
 		}
 		_ = now
-		switch sc.KeyExists {
+		res.DistinctAdd("policy-source|" + intended + "|yaml=" + yamlClass(spelling))
+		switch intended {
 		case "replace":
 			if out.Err != nil {
 				res.Violation("replace|valid-snapshot-rejected", "Send returned an error: "+trunc(out.Err.Error(), 300), witness())
@@ -328,4 +357,87 @@ func hexLimit(b []byte, n int) string {
 		return fmt.Sprintf("%x...(%d bytes)", b[:n], len(b))
 	}
 	return fmt.Sprintf("%x", b)
+}
+
+// yamlClass names how the policy was written in the YAML.
+func yamlClass(spelling string) string {
+	switch {
+	case spelling == "":
+		return "left-out"
+	case spelling == strings.ToLower(spelling):
+		return "documented"
+	}
+	return "upper-case"
+}
+
+// loadPolicies runs the loader once per spelling before any replay goroutine exists (the loader
+// writes the process-wide configuration).
+func loadPolicies() {
+	for _, p := range []string{"replace", "ignore", "error"} {
+		policyThroughConfig(p)
+		policyThroughConfig(strings.ToUpper(p))
+	}
+	policyThroughConfig("")
+	policiesLoaded = true
+}
+
+var policiesLoaded bool
+
+var (
+	policyMu    sync.Mutex
+	policyCache = map[string][2]string{}
+)
+
+// policyThroughConfig writes a configuration file whose output.replay section carries keyExists
+// as given (left out when empty), loads it with the tool's own loader and returns the policy the
+// output would be constructed with (syncer.newOutput copies Output.Replay.KeyExists).  The
+// process-wide configuration is put back afterwards.
+func policyThroughConfig(spelling string) (string, error) {
+	policyMu.Lock()
+	defer policyMu.Unlock()
+	if v, ok := policyCache[spelling]; ok {
+		if v[1] != "" {
+			return "", fmt.Errorf("%s", v[1])
+		}
+		return v[0], nil
+	}
+	if policiesLoaded {
+		return "", fmt.Errorf("harness: spelling %q was not loaded at start", spelling)
+	}
+	dir, err := os.MkdirTemp("", "c20-cfg-")
+	if err != nil {
+		return "", err
+	}
+	defer os.RemoveAll(dir)
+	y := `input:
+  redis:
+    addresses: ["127.0.0.1:1"]
+output:
+  redis:
+    addresses: ["127.0.0.1:2"]
+  replay:
+    batchCmdCount: 50
+`
+	if spelling != "" {
+		y += "    keyExists: " + spelling + "\n"
+	}
+	y += "channel:\n  storer:\n    dirPath: " + filepath.Join(dir, "storer") + "\nserver:\n  listen: \"127.0.0.1:18001\"\n"
+	path := filepath.Join(dir, "gunyu.yaml")
+	if err := os.WriteFile(path, []byte(y), 0o644); err != nil {
+		return "", err
+	}
+	saved := *config.GetSyncerConfig()
+	*config.GetSyncerConfig() = config.SyncConfig{}
+	lerr := config.InitSyncerConfig(path)
+	got := ""
+	if lerr == nil && config.GetSyncerConfig().Output != nil && true {
+		got = config.GetSyncerConfig().Output.Replay.KeyExists
+	}
+	*config.GetSyncerConfig() = saved
+	if lerr != nil {
+		policyCache[spelling] = [2]string{"", lerr.Error()}
+		return "", lerr
+	}
+	policyCache[spelling] = [2]string{got, ""}
+	return got, nil
 }
